@@ -562,6 +562,7 @@ def sweep_C19(ctx):
     fs = Fsck(a, b)
     unref = [e for e in fs.errors if "referenced by nothing" in e or "not preceded by a head" in e or "on no list" in e]
     ctx.check("C19.unreferenced", not unref, lambda: "unreferenced blocks: %s" % short(unref[:4], 500))
+    resubmit_under_short_read(ctx)
     cl = guarded(ctx, "C19.count_links", t.count_links)[1]
     ctx.check("C19.count_links", cl == sum(m.links.values()), lambda: "count_links=%r expected %r" % (cl, sum(m.links.values())))
     if m.nodes:
@@ -591,6 +592,28 @@ def sweep_C19(ctx):
     if len(m.nodes) >= 5:
         ctx.res.nontrivial = True
     ctx.note("C19", len(a), len(b))
+
+
+def resubmit_under_short_read(ctx):
+    """Re-submitting a known page never grows the stores - also when one of the reads it needs
+    comes back short (the request may then fail; it may not allocate)."""
+    m, t = ctx.model, ctx.t
+    if ctx.disk is None or not m.pages:
+        return
+    p = sample(ctx, m.pages, 1)[0]
+    a0, b0 = ctx.sut.stores()
+    ctx.disk.short_read_in = ctx.obs_rng.randint(1, 2 * len(stems(p)) + 2)
+    outcome = "returned"
+    try:
+        t.add_page(p, crawled=False)
+    except Exception as e:
+        outcome = "raised " + type(e).__name__
+    hit = ctx.disk.short_read_in is None
+    ctx.disk.short_read_in = None
+    a1, b1 = ctx.sut.stores()
+    if hit:
+        ctx.probe("resubmission_under_a_short_read_" + outcome.split()[0])
+    ctx.check("C19.appends_trie", len(a1) == len(a0) and len(b1) == len(b0), lambda: "re-submitting the known page %s while one read came back short (%s) grew the stores: trie %d -> %d bytes, links %d -> %d" % (short(p), outcome, len(a0), len(a1), len(b0), len(b1)))
 
 
 def after_op_C19(ctx, i, op):
